@@ -3136,6 +3136,18 @@ func runC20JSONWhole(c *Ctx) {
 			continue
 		}
 		n++
+		// output that cannot be decoded is a fatal error: the error of every decoding call, when not nil, is returned
+		for _, d := range append(append([]ssa.CallInstruction{}, unm...), dec...) {
+			dv, _ := d.(*ssa.Call)
+			if dv == nil {
+				continue
+			}
+			if why := failureNotReturned(p, fn, dv); why == "" {
+				c.ok(FuncName(fn)+"|undecodable output is an error", d.Pos(), "a decoding error is returned as an error")
+			} else {
+				c.bad(FuncName(fn)+"|undecodable output is an error", d.Pos(), why+": output of shellcheck that is not JSON silently yields no diagnostics")
+			}
+		}
 		construct := FuncName(fn) + "|decoding of the tool output"
 		if len(dec) == 0 {
 			c.ok(construct, unm[0].Pos(), "json.Unmarshal: anything after the first value is a syntax error")
